@@ -35,6 +35,21 @@ CHECKS = {
    technique="TLC trace validation (Header contract: no action for Crash/Hang/sanitizer report, parsed cursors inside the buffer) of API-call histories and tool runs on sealed adversarial inputs under ASan/UBSan",
    text="Inputs: the reference writer's header family (every field at its boundary values, every length field pointing at/over the end, re-sealed so that parsing proceeds past the checksum gate) with no body, a zero body and a random body; valid files of every flavour with structure-aware re-sealed mutations (sizes, digests, flags, compression type, count, chunk swaps, body damage, detached forms), raw mutations, special files (dictionary with the zstd dictionary magic) and degenerate inputs. Each is offered, under ASan+UBSan with a watchdog, to a history of about 40 public calls (open, dump, reads, the three validators, chunk data/stored data, missing range + rendering, copy as source and as target, a download callback) in fixed and shuffled order, and to unzck, zck_read_header, zck_gen_zdict and zck_delta_size. The recorded trace is accepted by TLC only if every call returned: Trace_Header has no action for Crash, Hang or a sanitizer report, and requires lead+preface+index+signature sizes of an opened header to lie inside the header buffer. A rejection is re-run alone with a 90 s budget before it is reported.",
    note="Memory errors as such are observed by ASan/UBSan/signals, not by the specification (DESIGN.md section 9); the TLA+ contract decides 'every call returns' and the cursor discipline. Allocation-failure paths and inputs far from the family are not explored."),
+ "C02": dict(
+   category="model_checking", design_ref="DESIGN.md section 6, C02",
+   technique="TLC trace validation of read-to-end executions on mutated files against the Reader contract (facts from the independent reference decoder)",
+   text="Valid files of every flavour (none/zstd, dictionary, all hash types, uncompressed-source flag, multi-block chunks, special frames) are mutated raw (bit flips, substitutions, insertions, deletions, truncations, body-targeted damage) and structure-aware with the header re-sealed (sizes, digests, flags, compression type, count, chunk swaps with and without index/whole-data checksum updates, either identifier, detached forms); each mutant is read to the end with a seeded buffer-size sequence (1 byte to 1 MiB) through the library and through unzck. The independent reference decoder supplies the facts (valid, reference content, per-read 'equals the reference interval'); TLC accepts a trace through Trace_Reader only if 'open, all reads to end of stream and close succeeded' implies 'file valid and exactly its content delivered' (RClose / RToolExit).",
+   note="Trusted: TLC, Reader.tla, the reference decoder (verif/ref.py, hashlib, libzstd). Digests treated as collision free. A stricter reference can never raise an alarm by itself because only the implication is demanded. Mutation space is sampled in quick tier; thorough adds every single-bit flip of every body byte and every truncation length of two files."),
+ "C14": dict(
+   category="model_checking", design_ref="DESIGN.md section 6, C14",
+   technique="exhaustive request sequences replayed on the real library; TLC trace validation against the Reader contract (RGetChunk)",
+   text="On valid files (zstd and uncompressed, with and without dictionary, an incompressible file whose stored size exceeds the data size, a file with multi-block chunks) every sequence of data / stored-data requests over all chunks including the dictionary up to length 2 (quick: plus 120 sampled of length 3 per file; thorough: all of length 3) and seeded sequences of 8-40 requests is executed; TLC accepts the trace only if every request returned the chunk's declared size and exactly its slice of the writer's input (resp. its stored bytes), independent of the history.",
+   note="Trusted: TLC, Reader.tla, the reference writer. Partial-size requests are not judged."),
+ "C15": dict(
+   category="model_checking", design_ref="DESIGN.md section 6, C15",
+   technique="bit-flip enumeration over zstd chunk bodies + damage-after-validation histories; TLC trace validation against the Reader contract (RRead: verified before released)",
+   text="For four small zstd files (with/without dictionary, with/without the uncompressed-source flag) single-bit flips of body bytes (thorough: every bit of every body byte; those that still decompress are counted) are read with buffer sizes 1, 7, chunk/2, chunk-1, chunk, chunk+1 and 100000, the bad chunk being first, middle or last; plus histories in which the intact file is validated or read first and then damaged through another descriptor. Returned bytes are attributed to chunks through the index; TLC accepts a trace only if no successful read returns a byte of a chunk whose stored bytes do not match its index checksum, in that read or any later one.",
+   note="Trusted: TLC, Reader.tla, hashlib verdicts per chunk, attribution of stream offsets to chunks by the declared sizes."),
 }
 
 def entry(pid, c):
